@@ -52,7 +52,7 @@ def _ktable(ctx, s, ng, degenerate, n, nw):
          quick=[dict(n=2, nw=1, ng=2, degenerate=True), dict(n=2, nw=2, ng=2, degenerate=True, _shards=2),
                 dict(n=2, nw=1, ng=2, degenerate=False), dict(n=2, nw=1, ng=3, degenerate=True)],
          thorough=[dict(n=3, nw=2, ng=2, degenerate=True, _shards=4), dict(n=3, nw=1, ng=3, degenerate=True),
-                   dict(n=2, nw=2, ng=3, degenerate=False, _shards=2), dict(n=3, nw=1, ng=2, degenerate=False)],
+                   dict(n=3, nw=1, ng=2, degenerate=False)],
          functions=FUNCS, stubs=STUBS, shard_depth=3, outside=['counts beyond those listed', 'NEMESIS tables'])
 def transmission(ctx, n, nw, ng, degenerate):
     """Real AbsorptionContribution.contribute -> contribute_ktau inside the real transmission path_integral.
@@ -164,7 +164,7 @@ def emission(ctx, n, nw, ng, nq):
                                                                       ctx.le(Ik[q, v], Ix[q, v] + slack, scale=None if ctx.sym else 1e-30)))
 
 
-@harness('C20', 'prepare_ktables', quick=[dict(n=2, nw=1, ng=2)], thorough=[dict(n=2, nw=2, ng=2), dict(n=3, nw=1, ng=3)],
+@harness('C20', 'prepare_ktables', quick=[dict(n=2, nw=1, ng=2)], thorough=[dict(n=2, nw=2, ng=2, _shards=8), dict(n=2, nw=1, ng=3, _shards=4)],
          functions=FUNCS + ['taurex.contributions.absorption:AbsorptionContribution.prepare_each', 'taurex.contributions.absorption:AbsorptionContribution.prepare'],
          stubs=STUBS + ['KTableCache()[gas] -> k-table double (symbolic coefficients and weights)', 'chemistry double'],
          outside=['more than one active gas in k-table mode (weights are taken from the first)'])
